@@ -829,6 +829,7 @@ class CoapRun:
 
 
 RUNNERS = {"ip": IpRun, "ble": BleRun, "coap": CoapRun}
+LAST_META = ""
 
 
 def run_impl(transport, toks):
@@ -847,6 +848,8 @@ def run_impl(transport, toks):
             raise RuntimeError("unhandled exception in a loop callback: " + "; ".join(get_loop().errors[:3]))
         canon = TRACE.canon()
         items = list(TRACE.items)
+        global LAST_META
+        LAST_META = "+".join(getattr(r, "sessions", [])[:4])
     finally:
         if r is not None:
             r.reqs.finish()
@@ -1020,7 +1023,7 @@ def _work(args):
         except Exception as e:  # noqa
             import traceback
             canon, items = "harness-error:" + type(e).__name__ + ":" + traceback.format_exc()[-600:], []
-        res.append((canon, oracle(transport, items)))
+        res.append((canon, oracle(transport, items), LAST_META))
     return res
 
 
@@ -1081,12 +1084,12 @@ def run(ctx):
         impl = impl_batch(transport, hists, workers)
         counts[transport] = dict(exhaustive_full_alphabet=n_full, exhaustive_core_alphabet=n_core,
                                  directed=len(DIRECTED[transport]), random=n_rand)
-        for idx, (h, m, (canon, bad)) in enumerate(zip(hists, model, impl)):
+        for idx, (h, m, (canon, bad, meta)) in enumerate(zip(hists, model, impl)):
             nontrivial = canon != "seal=;wire=;open=;acc=;out="
             cov.case(transport + " " + " ".join(h), nontrivial,
                      sample=dict(transport=transport, history=h, impl=canon[:300]) if (idx % 40009 == 17 or (len(h) > 20 and idx % 1013 == 0)) else None,
                      transport=transport, length=min(len(h), 7) if len(h) < 7 else (len(h) // 10) * 10 + 10,
-                     outcome="violating" if bad else "clean")
+                     outcome="violating" if bad else "clean", **({"ble_sessions": meta} if transport == "ble" else {}))
             for slug, what in bad:
                 if slug not in viols or len(h) < len(viols[slug]["payload"]["history"]):
                     viols[slug] = violation(slug, f"{transport}: {what}; history {' '.join(h)}", True,
@@ -1122,7 +1125,7 @@ def run(ctx):
         out.append(v)
     cov.extra["exhaustive"] = True
     cov.extra["exhaustive_part"] = (
-        "per transport: every history of length <= %d over its 11-symbol alphabet %s; every history of length %d over the "
+        "per transport: every history of length <= %d over its 11/12-symbol alphabet %s; every history of length %d over the "
         "7-symbol core %s; CoAP additionally every history of length %d over the event alphabet %s"
         % (full_depth, ALPHA, core_depth, CORE, core_depth, COAP_EVT))
     cov.extra["case_counts"] = counts
@@ -1131,6 +1134,9 @@ def run(ctx):
     cov.extra["trusted_base_extra"] = [
         "C06: in-memory asyncio transport / scripted GATT client / stub aiocoap context in harness/c06.py reproduce the peers' "
         "contracts (no delivery after close, exception in data_received is fatal, bleak calls the disconnected callback); "
-        "AEAD calls observed by wrapping ChaCha20Poly1305Encryptor/Decryptor and the cryptography AEAD objects given to EncryptionContext",
+        "AEAD calls observed by wrapping ChaCha20Poly1305Encryptor/Decryptor and the cryptography AEAD objects given to EncryptionContext; "
+        "BLE session keys are identified by their key BYTES (EncryptionKey/DecryptionKey constructors wrapped); BLE pair-verify and "
+        "pair-resume run the real get_session_keys/resume_m1/resume_m3 against harness/ref/c06acc.py, which derives the accessory's "
+        "session keys independently",
     ]
     return dict(coverage=cov.to_dict(), violations=out)
